@@ -1,5 +1,6 @@
 ------------------------------ MODULE MC_Preproc ------------------------------
-(* All index arrays of up to MaxRows tuples over a store of NPts points,   *)
+(* All index arrays of up to MaxRows tuples (MaxRows + 1 for points and    *)
+(* pairs) over a store of NPts points,                                     *)
 (* tuple sizes 1 (points), 2, 3, 4, repeats and arbitrary order included:  *)
 (* column-wise formation equals the point-wise definition, preserves row   *)
 (* and column order, and uses exactly `size` preprocessor calls.  The      *)
@@ -9,7 +10,7 @@ CONSTANTS NPts, MaxRows, Sizes
 VARIABLES size, T
 Store == [i \in 1..NPts |-> <<i, 10 * i>>]         \* distinct points
 Init == /\ size \in Sizes
-        /\ \E n \in 1..MaxRows : T \in [1..n -> [1..size -> 1..NPts]]
+        /\ \E n \in 1..(IF size <= 2 THEN MaxRows + 1 ELSE MaxRows) : T \in [1..n -> [1..size -> 1..NPts]]
 Next == UNCHANGED <<size, T>>
 ColumnWiseIsPointWise == ColumnWise(Store, T, size) = FormTuples(Store, T)
 OneCallPerColumn == Len(CallsForTuples(T, size)) = size
